@@ -313,6 +313,8 @@ def make_ugrid(rng, *, mesh=None, winding=None, supplied=None, start_index=None,
         supplied = tuple(t for t in OPTIONAL_TABLES if chance(rng, 0.5))
     supplied = tuple(supplied)
     declare_edge_dim = chance(rng, 0.5) if declare_edge_dim is None else declare_edge_dim
+    if 'face_edge' in supplied and not ({'edge_node', 'edge_face'} & set(supplied)):
+        declare_edge_dim = True     # a face-edge table alone neither declares nor implies an edge dimension
     has_edges = declare_edge_dim or ('edge_node' in supplied) or ('edge_face' in supplied)
     m.has_edges = has_edges
     if has_edges and not ({'edge_node', 'edge_face'} & set(supplied)):
